@@ -306,8 +306,11 @@ def parse_number(tok):
 class Expr:
     """bound expressions: + - * / ( ) literals n_vectors"""
 
-    def __init__(self, toks, n_name="n_vectors"):
+    def __init__(self, toks, n_name="n_vectors", kws=None, local_vars=None):
         self.toks, self.i, self.n_name = toks, 0, n_name
+        self.kws = kws or {}
+        self.local_vars = local_vars or {}
+        self.convs = []          # (keyword, type): conversions of parameters inside the expression
 
     def peek(self):
         return self.toks[self.i] if self.i < len(self.toks) else None
@@ -356,10 +359,43 @@ class Expr:
             return ("BSub", ("BInt", 0), a)
         if t == self.n_name:
             return ("BN",)
+        if t == "current_dimension":
+            return ("BDim",)
+        if t in self.local_vars:
+            e, convs = self.local_vars[t]
+            return e                     # its conversions were emitted where the variable was declared
+        if t == "static_cast":
+            # static_cast < T > ( parameters [ kw ] )  |  static_cast < IndexType > ( expr )
+            if self.peek() != "<":
+                fail("bound expression: static_cast shape in " + J(self.toks))
+            j = self.toks.index(">", self.i)
+            cty = J(self.toks[self.i + 1:j])
+            if cty not in TYPE_MAP or TYPE_MAP[cty] not in ("TIndex", "TScalar"):
+                fail("bound expression: static_cast<%s> not understood" % cty)
+            if self.toks[j + 1:j + 2] != ["("]:
+                fail("bound expression: static_cast shape in " + J(self.toks))
+            e = match_close(self.toks, j + 1)
+            inner = self.toks[j + 2:e]
+            self.i = e + 1
+            m = re.fullmatch(r"parameters \[ (\w+) \]", J(inner))
+            if m:
+                if m.group(1) not in self.kws:
+                    fail("parameters[%s]: unknown keyword" % m.group(1))
+                self.convs.append((m.group(1), TYPE_MAP[cty]))
+                return ("BParam", m.group(1), TYPE_MAP[cty])
+            sub = Expr(inner, self.n_name, self.kws, self.local_vars)
+            ie = sub.parse()
+            self.convs += sub.convs
+            if TYPE_MAP[cty] == "TIndex":
+                return ("BTrunc", ie)
+            fail("bound expression: static_cast<%s>(expression) not understood" % cty)
         if re.match(r"[\d.]", t):
             k, v = parse_number(t)
             return ("BInt", v) if k == "int" else ("BReal", v)
         fail("bound expression: unknown operand %r in %s" % (t, J(self.toks)))
+
+
+KW_NUM = {}      # keyword identifier -> id, filled by Translator.keywords()
 
 
 def coq_Z(z):
@@ -378,6 +414,12 @@ def coq_bexpr(e):
         return "(BReal %s)" % coq_Q(e[1])
     if e[0] == "BN":
         return "BN"
+    if e[0] == "BDim":
+        return "BDim"
+    if e[0] == "BParam":
+        return "(BParam %d %s)" % (KW_NUM[e[1]], e[2])
+    if e[0] == "BTrunc":
+        return "(BTrunc %s)" % coq_bexpr(e[1])
     return "(%s %s %s)" % (e[0], coq_bexpr(e[1]), coq_bexpr(e[2]))
 
 
@@ -388,6 +430,12 @@ def js_bexpr(e):
         return {"real": [e[1].numerator, e[1].denominator]}
     if e[0] == "BN":
         return "N"
+    if e[0] == "BDim":
+        return "D"
+    if e[0] == "BParam":
+        return {"param": [KW_NUM[e[1]], e[2]]}
+    if e[0] == "BTrunc":
+        return {"trunc": js_bexpr(e[1])}
     return {e[0]: [js_bexpr(e[1]), js_bexpr(e[2])]}
 
 
@@ -453,6 +501,8 @@ class Translator:
                 kws[ident]["id"] = nxt
                 nxt += 1
                 self.notes.append("new keyword " + ident)
+        KW_NUM.clear()
+        KW_NUM.update({k: v["id"] for k, v in kws.items()})
         return kws
 
     # ---- defines/methods.hpp
@@ -620,7 +670,7 @@ class Translator:
             fail("predicates.hpp: no predicate found")
         return preds
 
-    def make_check(self, kws, preds, kwident, predname, tytoks, argtoks, n_name):
+    def make_check(self, kws, preds, kwident, predname, tytoks, argtoks, n_name, local_vars=None):
         if kwident not in kws:
             fail("check on unknown keyword " + kwident)
         if predname not in preds:
@@ -632,14 +682,19 @@ class Translator:
         args = [a for a in split_top(argtoks)] if argtoks else []
         if len(args) != p["nargs"]:
             fail("predicate %s used with %d arguments" % (predname, len(args)))
-        exprs = [Expr(a, n_name).parse() for a in args]
+        exprs, convs = [], []
+        for a in args:
+            ex = Expr(a, n_name, kws, local_vars)
+            exprs.append(ex.parse())
+            convs += ex.convs
 
         def bound(b):
             if b is None:
                 return None
             strict, (kind, x) = b
             return (strict, exprs[x] if kind == "arg" else x)
-        return {"kw": kwident, "ty": TYPE_MAP[ty], "pred": predname, "lo": bound(p["lo"]), "hi": bound(p["hi"])}
+        return {"kw": kwident, "ty": TYPE_MAP[ty], "pred": predname, "lo": bound(p["lo"]), "hi": bound(p["hi"]),
+                "convs": convs}
 
     CHECK_RE = re.compile(r"parameters \[ (\w+) \] \. checked \( \) \. satisfies \( (\w+) < ([^>]*) > \( (.*?) ?\) \) \. orThrow \( \)")
 
@@ -672,8 +727,13 @@ class Translator:
                     m = self.CHECK_RE.match(J(toks[i:]))
                     if not m:
                         fail("checked().satisfies() shape not understood: " + J(toks[i:i + 30]))
-                    c = self.make_check(kws, preds, m.group(1), m.group(2), m.group(3).split(), m.group(4).split(), env["n_name"])
+                    c = self.make_check(kws, preds, m.group(1), m.group(2), m.group(3).split(), m.group(4).split(),
+                                        env["n_name"], env.get("locals"))
+                    # conversions inside the bound expressions happen before the predicate is applied
+                    for ck, cty in c["convs"]:
+                        steps.append(([], ("conv", ck, cty)))
                     steps.append(([], ("check", c)))
+                    seen += sum(1 for t in tokenize(m.group(0))[1:] if t == "parameters")
                     i += len(tokenize(m.group(0)))
                     continue
                 if after[:3] == [".", "is", "("]:
@@ -766,6 +826,14 @@ class Translator:
 
     def guard_of(self, cond, env):
         s = J(cond)
+        mg = re.fullmatch(r"static_cast < (\w+) > \( parameters \[ (\w+) \] \) > ([\d.eE+-]+)", s)
+        if mg:
+            cty, kw, lit = mg.groups()
+            if kw not in env["kws"] or cty not in TYPE_MAP or TYPE_MAP[cty] not in ("TIndex", "TScalar"):
+                fail("guard not understood: " + s)
+            k, v = parse_number(lit)
+            return {"kind": "gt", "kw": kw, "ty": TYPE_MAP[cty], "q": Fraction(v), "pos": True,
+                    "conv": (kw, TYPE_MAP[cty])}
         m = re.fullmatch(r"(!)? ?parameters \[ (\w+) \] \. is \( (\w+) \)", s)
         if not m:
             return None
@@ -782,7 +850,7 @@ class Translator:
                     v = (ctor, env["enums"][cty][val])
             if v is None:
                 fail("guard value not understood: " + s)
-        return {"kw": kw, "val": v, "pos": not neg}
+        return {"kind": "is", "kw": kw, "val": v, "pos": not neg}
 
     def body_steps(self, stmts, env, guards):
         out = []
@@ -792,6 +860,22 @@ class Translator:
                 toks = st[1]
                 if toks and toks[0] == "throw":
                     fail("throw statement inside a method body not understood: " + J(toks))
+                md = re.fullmatch(r"(?:const )?(IndexType|ScalarType) (\w+) = (.*static_cast.*)", J(toks))
+                if md and "locals" in env and not any(t in env["cbnames"] for t in toks):
+                    # a local variable that a later bound expression may use
+                    try:
+                        ex = Expr(md.group(3).split(), env["n_name"], env["kws"], env["locals"])
+                        le = ex.parse()
+                    except TranslateError:
+                        ex = None
+                    if ex is not None:
+                        if md.group(1) == "IndexType" and le[0] not in ("BTrunc", "BInt", "BN", "BDim") \
+                                and not (le[0] == "BParam" and le[2] == "TIndex"):
+                            le = ("BTrunc", le)
+                        env["locals"][md.group(2)] = (le, ex.convs)
+                        for ck, cty in ex.convs:
+                            out.append((list(guards), ("conv", ck, cty)))
+                        continue
                 sub = dict(env)
                 sub["decl_type"] = None
                 for g2, x in self.stmt_steps(toks, sub):
@@ -801,6 +885,8 @@ class Translator:
             elif kind == "if":
                 g = self.guard_of(st[1], env)
                 if g is not None:
+                    if g.get("conv"):
+                        out.append((list(guards), ("conv", g["conv"][0], g["conv"][1])))
                     out += self.body_steps([st[2]], env, guards + [g])
                     if st[3] is not None:
                         ng = dict(g)
@@ -1133,8 +1219,8 @@ class Translator:
                        "helpers": helpers, "cbnames": dict(CB_MEMBERS)}
                 _, _, vb = function_body(cls, ["void", "validate", "("], name + "::validate")
                 _, _, eb = function_body(cls, ["TapkeeOutput", "embed", "("], name + "::embed")
-                v = self.body_steps(parse_block(vb), env, [])
-                em = self.body_steps(parse_block(eb), env, [])
+                v = self.body_steps(parse_block(vb), dict(env, locals={}), [])
+                em = self.body_steps(parse_block(eb), dict(env, locals={}), [])
                 # nothing else in the class may touch parameters
                 rest = J(cls)
                 if rest.count("parameters [") != J(vb).count("parameters [") + J(eb).count("parameters ["):
@@ -1194,8 +1280,11 @@ def coq_check(c, kws):
 
 def coq_step(st, kws):
     guards, x = st
-    gs = "[" + "; ".join("{| g_kw := %d; g_val := %s; g_pos := %s |}" % (
-        kws[g["kw"]]["id"], coq_value(g["val"]), "true" if g["pos"] else "false") for g in guards) + "]"
+    def cg(g):
+        if g["kind"] == "gt":
+            return "GGt %d %s %s %s" % (kws[g["kw"]]["id"], g["ty"], coq_Q(g["q"]), "true" if g["pos"] else "false")
+        return "GIs %d %s %s" % (kws[g["kw"]]["id"], coq_value(g["val"]), "true" if g["pos"] else "false")
+    gs = "[" + "; ".join(cg(g) for g in guards) + "]"
     if x[0] == "conv":
         b = "BConv %d %s" % (kws[x[1]]["id"], x[2])
     elif x[0] == "check":
@@ -1285,7 +1374,9 @@ def emit_json(t):
 
     def js_step(st):
         guards, x = st
-        g = [{"kw": kws[q["kw"]]["id"], "val": js_value(q["val"]), "pos": q["pos"]} for q in guards]
+        g = [({"gt": [kws[q["kw"]]["id"], q["ty"], [q["q"].numerator, q["q"].denominator]], "pos": q["pos"]}
+              if q["kind"] == "gt" else
+              {"kw": kws[q["kw"]]["id"], "val": js_value(q["val"]), "pos": q["pos"]}) for q in guards]
         if x[0] == "conv":
             return {"g": g, "conv": [kws[x[1]]["id"], x[2]]}
         if x[0] == "check":
